@@ -78,10 +78,25 @@ Theorem C06_tuple1_variant_example :
             eval_expr Tw e = Some (JObj [(u "V", JArr [JInt 3])]).
 Proof. exact tuple1_variant_example. Qed.
 
-(* (4) C06_default_exact on the structural fragment [efrag]: scalars under Option, Box, Vec, Set, fixed arrays,
-   tuples and newtypes: the rendered expression denotes a value whose serialisation [approx]-equals the schema
-   default.  PARTIAL: structs, maps, enums, natives are covered by the per-run model-vs-serde agreement only. *)
-Theorem C06_default_exact_partial : forall re T n f t d k,
+(* (4) C06_default_exact: the rendered expression denotes a value whose serialisation equals the schema default up to
+   filling of nested defaults ([approx]: every member of d is in r with an approx-equal value or was skipped because
+   empty; r may have additional members -- the nested defaults that were filled in).
+   No Known_F12 exclusion (fixed by a08c818): an absent member with its own default renders that default.
+   [xfrag]: bool, known integers, floats, string, unit under Option, Box, Vec, Set, fixed arrays, tuples, newtypes and
+   STRUCTS with direct members (renames, Optional members with skip_serializing_if, members with own defaults, nested
+   structs), distinct field and wire names.  Hypotheses: struct names identify their entry ([named_ok], C16), the
+   default is a JSON value with unique object keys ([wf_json], what serde_json produces), member defaults were
+   validated ([defaults_validated_wf], check_defaults).
+   RESIDUE (not proved, per-run model-vs-serde agreement only): flattened members, maps, the enum taggings, natives,
+   JsonValue, recursive types (xfrag bounds the type depth). *)
+Theorem C06_default_exact_partial : forall re T dok, named_ok T -> defaults_validated_wf re T dok ->
+  forall n f t d k,
+  validate_value re T f t d = ROk k -> wf_json d = true -> xfrag T dok n t = true ->
+  exists e, output_value T n t d = ROk e /\ exists r, eval_expr T e = Some r /\ approx d r = true.
+Proof. exact xfrag_exact. Qed.
+
+(* the struct-free part needs none of the hypotheses *)
+Theorem C06_default_exact_structural : forall re T n f t d k,
   validate_value re T f t d = ROk k -> efrag T n t = true ->
   exists e, output_value T n t d = ROk e /\ exists r, eval_expr T e = Some r /\ approx d r = true.
 Proof. exact efrag_exact. Qed.
@@ -119,6 +134,11 @@ Definition dok0 (t : id) (v : json) : bool :=
   match validate_value re0 Tf12 5 t v with ROk _ => true | _ => false end.
 Example C06_nonvacuous_dok : defaults_validated re0 Tf12 dok0.
 Proof. intros t dv H. unfold dok0 in H. destruct (validate_value re0 Tf12 5 t dv) eqn:E; try discriminate H. eauto. Qed.
+
+Example C06_nonvacuous_exact :
+  named_ok Tf12 /\ xfrag Tf12 dok0 3 2 = true /\ wf_json (JObj [(u "x", JInt 1)]) = true /\
+  validate_value re0 Tf12 3 2 (JObj [(u "x", JInt 1)]) = ROk KSpecific /\ wf_json (JInt 7) = true.
+Proof. split; [exact named_ok_Tf12|]. repeat split; vm_compute; reflexivity. Qed.
 
 Example C06_nonvacuous_frag :
   tfrag Tw 3 dok0 3 3 = true /\ tfrag Tw 3 dok0 3 6 = true /\ tfrag Tw 3 dok0 3 7 = true /\ tfrag Tw 3 dok0 3 10 = true /\
